@@ -138,6 +138,9 @@ var (
 	errOpen = errors.New("sentinel: OpenFile failed")
 	errRead = errors.New("sentinel: Read failed")
 	errIter = errors.New("sentinel: iterator failed")
+	// a store-made failure of the context class (a per-page deadline of the MetaStore's own):
+	// the query's context is live, so it is a failure to report like any other
+	errIterCtx = fmt.Errorf("sentinel: iterator page fetch: %w", context.DeadlineExceeded)
 )
 
 func cqRoot(p cqp) func() {
@@ -183,6 +186,10 @@ func cqRoot(p cqp) func() {
 			if p.faults {
 				meta.IterErr = func(i int) error {
 					if vapi.Fault("Iter") {
+						if p.engine == "fresh+iterctx" {
+							fired = append(fired, errIterCtx)
+							return errIterCtx
+						}
 						fired = append(fired, errIter)
 						return errIter
 					}
@@ -532,6 +539,8 @@ func init() {
 					// queries work the same on a stopped engine: every row, and failures are reported
 					{"small", 2, -1, 0, false, false, "stopped", prop, false, false},
 					{"small", 1, -1, 0, false, true, "stopped", prop, false, false},
+					// the MetaStore's iterator fails with a deadline error of its own making
+					{"small", 1, -1, 0, false, true, "fresh+iterctx", prop, false, false},
 					{"big", 2, 65, 2, false, false, "fresh", prop, false, false},
 					// preemption-bounded (not delay-bounded, see below): a Next in progress while the
 					// context is cancelled and the pipeline winds down (finding F12)
